@@ -410,7 +410,7 @@ func init() {
 		// backend while others stand between "picked" and "examined" and have to retry
 		Eject bool `json:"eject,omitempty"`
 	}
-	vh.AddPart("C13", "gauge-schedules", "sim", vh.Opts{Shards: 10, TimeoutS: 400},
+	vh.AddPart("C13", "gauge-schedules", "sim", vh.Opts{NoConfirm: true, Shards: 10, TimeoutS: 400},
 		func(e *vh.Env) []c13Sched {
 			var cs []c13Sched
 			for _, st := range allStrategies {
